@@ -204,7 +204,12 @@ def run_equality(R, variant):
             T.np = saved
             wrong = []
             for la, lb in ((np.ones(1), np.ones(4)), (np.float32(1.0), np.ones(3, np.float32)), (np.ones((1, 3)), np.ones((2, 3))), (np.zeros((0,)), np.zeros((2,))),
-                           (np.ones((2, 1), np.int32), np.ones((1, 2), np.int32))):
+                           (np.ones((2, 1), np.int32), np.ones((1, 2), np.int32)),
+                           # a leaf that is None in one tree and an array in the other (jax's flattening drops None leaves), and float
+                           # leaves that differ by less than any tolerance-based comparison would notice
+                           (None, np.ones(2, np.float32)), (None, np.float32(0.0)),
+                           (np.float32(250.0), np.float32(250.001)), (np.ones(3, np.float32), np.ones(3, np.float32) + np.float32(3e-7)),
+                           (np.float64(1.0), np.float64(1.0) + 1e-12)):
                 for a_, b_ in (({"x": la, "y": [np.int8(1)]}, {"x": lb, "y": [np.int8(1)]}), ({"x": lb, "y": [np.int8(1)]}, {"x": la, "y": [np.int8(1)]})):
                     try:
                         eq = T.is_equal_pytree(a_, b_)
@@ -225,10 +230,10 @@ def run_equality(R, variant):
                     except Exception as e:  # noqa
                         same = f"raised {type(e).__name__}"
                     if eq is not False or dif != "returns" or same != "AssertionError":
-                        wrong.append({"shapes": [list(np.shape(a_["x"])), list(np.shape(b_["x"]))], "is_equal_pytree": str(eq), "assert_trees_are_different": dif, "assert_trees_are_equal": same})
+                        wrong.append({"leaves": [repr(a_["x"])[:40], repr(b_["x"])[:40]], "shapes": [list(np.shape(a_["x"])), list(np.shape(b_["x"]))], "is_equal_pytree": str(eq), "assert_trees_are_different": dif, "assert_trees_are_equal": same})
                     R.validated += 3
             T.np = P.NpShim()
-            R.structural("leaves of different (also broadcast-compatible) shapes: is_equal_pytree False, assert_trees_are_different returns, assert_trees_are_equal raises", not wrong,
+            R.structural("leaves of different (also broadcast-compatible) shapes, None vs array, floats one ulp / 1e-12 apart: is_equal_pytree False, assert_trees_are_different returns, assert_trees_are_equal raises", not wrong,
                          {"disagreements": wrong[:4]})
         R.sample({"variant": variant, "paths": "see obligations"})
     finally:
